@@ -426,8 +426,12 @@ def query(
         statement = statement.strip()
         if statement:
             logger.debug("Parsing: " + statement)
-            var, val = parse(statement, namespace)
-            interpret(var, val, namespace, datastore)
+            try:
+                var, val = parse(statement, namespace)
+                interpret(var, val, namespace, datastore)
+            except RecursionError:
+                # The parser and interpreter are recursive, very deep nesting exhausts the stack
+                raise QueryParseException("Query is nested too deeply") from None
 
     result = get_return(namespace)
     return result
